@@ -594,3 +594,123 @@ Example leak_without_reset :
   conv_groups ok (fun _ => 0) (fun _ => false) 8 true [] gs = [[Some (FOp "Pure" "x" [] [])]; [Some (FOp "Const" "x" [] [])]] /\
   conv_groups ok (fun _ => 0) (fun _ => false) 8 false [] gs = [[Some (FOp "Pure" "x" [] [])]; [Some (FOp "Pure" "x" [] [])]].
 Proof. vm_compute. split; reflexivity. Qed.
+
+(* ---------------------------------------------------------------- the hypotheses, decidably *)
+(* [consistent], [nc] and [env_ok] are statements about what go/types records; the correspondence run evaluates them on the
+   annotations go/types really produced for every generated file (boolean versions, proved sound). *)
+Lemma const_eqb_eq a b c c' : is_const a = Some c -> is_const b = Some c' -> fexpr_eqb c c' = true -> c = c'.
+Proof.
+  destruct a as [[s|z|]|], b as [[s'|z'|]|]; cbn; intros H1 H2; inversion H1; inversion H2; subst; cbn; intros E.
+  - apply String.eqb_eq in E. now subst.
+  - discriminate.
+  - discriminate.
+  - apply Z.eqb_eq in E. now subst.
+Qed.
+
+Definition const_leb (a b : option cval) : bool :=     (* is_const a = None, or both are the same constant *)
+  match is_const a with
+  | None => true
+  | Some c => match is_const b with Some c' => fexpr_eqb c c' | None => false end
+  end.
+
+Lemma const_leb_spec a b : const_leb a b = true -> is_const a = None \/ is_const a = is_const b.
+Proof.
+  unfold const_leb. destruct (is_const a) as [c|] eqn:Ea; [|now left]. destruct (is_const b) as [c'|] eqn:Eb; [|discriminate].
+  intros E. right. f_equal. exact (const_eqb_eq a b c c' Ea Eb E).
+Qed.
+
+Definition is_noneb {A} (o : option A) : bool := match o with None => true | Some _ => false end.
+
+Section Decide.
+Variable path_ok : string -> bool.
+
+Definition root_litb (e : dexpr) : bool :=
+  match snd (sel_path e) with
+  | Some (ELit _ LString (Some (CStr _))) => true
+  | Some _ => false
+  | None => true
+  end.
+
+Fixpoint consistentb (e : dexpr) : bool :=
+  match e with
+  | EIdent _ _ => true
+  | ELit a k p => const_leb (patch k p) a
+  | EParen a x => consistentb x && const_leb a (annot x)
+  | EUnary a op x => consistentb x && (is_noneb (is_const a) || negb (String.eqb op "!"))
+  | EBinary a op x y => consistentb x && consistentb y && (is_noneb (is_const a) || negb (convertible_binop op))
+  | ESel a x f => root_litb e && (is_noneb (is_const a) || negb (path_ok (fst (sel_path e))))
+  | EIndex _ _ _ => true
+  | ECall a f args => root_litb e && (is_noneb (is_const a) || negb (path_ok (fst (sel_path e)))) && forallb consistentb args
+  end.
+
+Lemma root_litb_spec e : root_litb e = true -> root_lit e.
+Proof.
+  unfold root_litb, root_lit. destruct (snd (sel_path e)) as [i|]; [|trivial].
+  destruct i as [| a k p | | | | | |]; try discriminate. destruct k; try discriminate. destruct p as [[s|z|]|]; try discriminate. trivial.
+Qed.
+
+Lemma noneb_or_spec {A} (o : option A) (b : bool) : is_noneb o || b = true -> o <> None -> b = true.
+Proof. destruct o; cbn; [trivial|]. intros _ H. now contradiction H. Qed.
+
+Theorem consistentb_sound e : consistentb e = true -> consistent path_ok e.
+Proof.
+  induction e as [a n|a k p|a x IHx|a op x IHx|a op x y IHx IHy|a x f IHx|a x i IHx IHi|a f args IHf IHargs] using dexpr_ind';
+    cbn [consistentb consistent]; intros H.
+  - exact I.
+  - now apply const_leb_spec.
+  - apply andb_true_iff in H. destruct H as [H1 H2]. split; [now apply IHx|]. intros c Hc.
+    destruct (const_leb_spec _ _ H2) as [E|E]; congruence.
+  - apply andb_true_iff in H. destruct H as [H1 H2]. split; [now apply IHx|]. intros Hc.
+    pose proof (noneb_or_spec _ _ H2 Hc) as E. apply negb_true_iff in E. now apply String.eqb_neq.
+  - apply andb_true_iff in H. destruct H as [H12 H3]. apply andb_true_iff in H12. destruct H12 as [H1 H2].
+    split; [now apply IHx|]. split; [now apply IHy|]. intros Hc. pose proof (noneb_or_spec _ _ H3 Hc) as E. now apply negb_true_iff in E.
+  - apply andb_true_iff in H. destruct H as [H1 H2]. split; [now apply root_litb_spec|]. intros Hc.
+    pose proof (noneb_or_spec _ _ H2 Hc) as E. now apply negb_true_iff in E.
+  - exact I.
+  - apply andb_true_iff in H. destruct H as [H12 H3]. apply andb_true_iff in H12. destruct H12 as [H1 H2].
+    split; [now apply root_litb_spec|]. split.
+    + intros Hc. pose proof (noneb_or_spec _ _ H2 Hc) as E. now apply negb_true_iff in E.
+    + apply allP_Forall. rewrite Forall_forall in *. rewrite forallb_forall in H3. intros x Hx. apply (IHargs x Hx). now apply H3.
+Qed.
+
+(* [nc] and [env_ok] *)
+Variable names : list string.
+
+Fixpoint ncb (e : dexpr) : bool :=
+  match e with
+  | EIdent _ _ | ELit _ _ _ => true
+  | EParen _ x | EUnary _ _ x | ESel _ x _ => ncb x
+  | EBinary _ _ x y | EIndex _ x y => ncb x && ncb y
+  | ECall a f args =>
+      match f with EIdent _ n => is_noneb (is_const a) || negb (existsb (String.eqb n) names) | _ => true end && ncb f && forallb ncb args
+  end.
+
+Theorem ncb_sound e : ncb e = true -> nc names e.
+Proof.
+  induction e as [a n|a k p|a x IHx|a op x IHx|a op x y IHx IHy|a x f IHx|a x i IHx IHi|a f args IHf IHargs] using dexpr_ind';
+    cbn [ncb nc]; intros H; auto.
+  - apply andb_true_iff in H. destruct H. split; auto.
+  - apply andb_true_iff in H. destruct H. split; auto.
+  - apply andb_true_iff in H. destruct H as [H12 H3]. apply andb_true_iff in H12. destruct H12 as [H1 H2]. split; [|split].
+    + destruct f as [a0 n| | | | | | |]; try exact I. intros Hc Hin. pose proof (noneb_or_spec _ _ H1 Hc) as E.
+      apply negb_true_iff in E. assert (existsb (String.eqb n) names = true); [|congruence].
+      apply existsb_exists. exists n. split; [assumption|apply String.eqb_refl].
+    + now apply IHf.
+    + apply allP_Forall. rewrite Forall_forall in *. rewrite forallb_forall in H3. intros x Hx. apply (IHargs x Hx). now apply H3.
+Qed.
+
+Definition env_okb (en : env) : bool :=
+  forallb (fun m => ncb (m_body m) && existsb (String.eqb (m_name m)) names &&
+                    forallb (fun p => existsb (String.eqb p) names) (m_params m)) en.
+
+Lemma existsb_In n l : existsb (String.eqb n) l = true -> In n l.
+Proof. intros H. apply existsb_exists in H. destruct H as (x & Hx & E). apply String.eqb_eq in E. now subst. Qed.
+
+Theorem env_okb_sound en : env_okb en = true -> env_ok en names.
+Proof.
+  unfold env_okb, env_ok. rewrite forallb_forall, Forall_forall. intros H m Hm. specialize (H m Hm).
+  apply andb_true_iff in H. destruct H as [H12 H3]. apply andb_true_iff in H12. destruct H12 as [H1 H2].
+  split; [now apply ncb_sound|]. split; [now apply existsb_In|].
+  intros p Hp. rewrite forallb_forall in H3. apply existsb_In. now apply H3.
+Qed.
+End Decide.
